@@ -57,6 +57,9 @@ class Ctx:
         self.assumptions = []
         os.makedirs(os.path.join(WORK, "replay"), exist_ok=True)
         os.makedirs(os.path.join(WORK, "tmp"), exist_ok=True)
+        import glob
+        for old in glob.glob(os.path.join(WORK, "replay", f"{pid}-*.json")):
+            os.remove(old)
         self.known = json.load(open(os.path.join(VERIF, "known_findings.json")))["findings"]
 
     # ---------------------------------------------------------------- builds
